@@ -19,18 +19,20 @@ LEVEL = 'exploration'
 RULE = ('Enumerated: every multiset of the seven legal eligibility row classes over 1..3 geos (quick) / '
         '1..4 (thorough), crossed with 9 size settings (none; (1,1),(1,2),(2,3),(3,9) for either group) x '
         '5 geo-ratio tolerances (None, 0.01, 0.5, 1.0, 2.0); random class vectors on 4-6 (quick) / 5-8 '
-        '(thorough) geos with random settings incl. both size ranges. For each (multiset, setting): '
+        '(thorough) geos with random settings incl. both size ranges; class vectors on 3-6 geos with n_geos_max / share / '
+        'budget constraints that drop assignable geos before the design space is formed. For each (multiset, setting): '
         'count_max_designs() vs the oracle enumeration; for every third setting also the full generator '
         'listing (distinct pairs, no duplicates). Non-trivial: oracle count > 0 and >= 2 row classes '
         'present; distinct by (class multiset, setting).')
-ASSUMPTIONS = ['the admitted set equals the assignable geos (no share / budget / n_geos_max constraint is set in this check)',
+ASSUMPTIONS = ['in the enumerated part the admitted set equals the assignable geos; the "dropped" cases add n_geos_max / share / budget constraints and count over the observed geos_within_constraints',
                'geo-ratio bound evaluated in exact rational arithmetic of the float tolerance']
 EXHAUSTIVE = {'quick': True, 'thorough': True}
-MINIMA = {'quick': {'settings': 4000, 'listings': 1200, 'search_bound_checks': 20, 'distinct_nontrivial': 1500},
-          'thorough': {'settings': 20000, 'listings': 6000, 'search_bound_checks': 100, 'distinct_nontrivial': 8000}}
+MINIMA = {'quick': {'settings': 4000, 'listings': 1200, 'search_bound_checks': 20, 'settings_with_dropped_geos': 100, 'distinct_nontrivial': 1500},
+          'thorough': {'settings': 20000, 'listings': 6000, 'search_bound_checks': 100, 'settings_with_dropped_geos': 700, 'distinct_nontrivial': 8000}}
 MAXG = {'quick': 3, 'thorough': 4}
 N_RANDOM = {'quick': 96, 'thorough': 640}
 N_SEARCH = {'quick': 32, 'thorough': 160}
+N_DROPPED = {'quick': 96, 'thorough': 640}
 CLASSES = ['c_fixed', 't_fixed', 'x_fixed', 'ct', 'cx', 'tx', 'ctx']
 SIZES = [None, (1, 1), (1, 2), (2, 3), (3, 9)]
 SIZE_SETTINGS = [(None, None)] + [(s, None) for s in SIZES[1:]] + [(None, s) for s in SIZES[1:]]
@@ -45,7 +47,7 @@ def all_multisets(maxg):
 
 
 def n_cases(tier):
-  return len(all_multisets(MAXG[tier])) + N_RANDOM[tier] + N_SEARCH[tier]
+  return len(all_multisets(MAXG[tier])) + N_RANDOM[tier] + N_SEARCH[tier] + N_DROPPED[tier]
 
 
 def gen_case(tier, seed, idx):
@@ -54,7 +56,9 @@ def gen_case(tier, seed, idx):
     return {'tier': tier, 'seed': seed, 'idx': idx, 'kind': 'enum', 'classes': list(ms[idx])}
   if idx < len(ms) + N_RANDOM[tier]:
     return {'tier': tier, 'seed': seed, 'idx': idx, 'kind': 'random'}
-  return {'tier': tier, 'seed': seed, 'idx': idx, 'kind': 'search'}
+  if idx < len(ms) + N_RANDOM[tier] + N_SEARCH[tier]:
+    return {'tier': tier, 'seed': seed, 'idx': idx, 'kind': 'search'}
+  return {'tier': tier, 'seed': seed, 'idx': idx, 'kind': 'dropped'}
 
 
 def prepare(tier):
@@ -82,8 +86,9 @@ def listing(mm):
   return pairs
 
 
-def check_setting(case, truth, tr, cr, tol, do_listing, counters, violations, fps):
+def check_setting(case, truth, tr, cr, tol, do_listing, counters, violations, fps, extra_kw=None):
   kw = {'n_test': 3, 'iroas': 1.0}
+  kw.update(extra_kw or {})
   if tr is not None:
     kw['treatment_geos_range'] = tr
   if cr is not None:
@@ -99,6 +104,15 @@ def check_setting(case, truth, tr, cr, tol, do_listing, counters, violations, fp
     return
   data, par, mm = built.value
   admitted = {gid for gid, c in truth.row.items() if c != 'x_fixed'}
+  if extra_kw:
+    # geo-level constraints drop geos before the design space is formed: count over the admitted geos only
+    obs = util.call(lambda: set(mm.geos_within_constraints))
+    if not obs.ok:
+      counters['build_rejected'] += 1
+      return
+    if obs.value != admitted:
+      counters['settings_with_dropped_geos'] += 1
+    admitted = obs.value
   pairs, amb = sl.enumerate_assignments(truth, admitted, kw)
   counters['settings'] += 1
   if amb:
@@ -187,6 +201,39 @@ def run_random(spec, r, g):
           'case': sl.describe(case) if violations else None}
 
 
+def run_dropped(spec, r, g):
+  """Random class vectors with n_geos_max / share / budget constraints that drop assignable geos."""
+  G = r.randrange(3, 7)
+  weights = [('ctx', 6), ('cx', 2), ('tx', 2), ('ct', 1), ('c_fixed', 1), ('t_fixed', 1), ('x_fixed', 1)]
+  classes = [gen.weighted(r, weights) for _ in range(G)]
+  case = make_case(r, g, classes)
+  truth = sl.Truth(case)
+  counters = collections.Counter()
+  violations, fps = [], set()
+  vals = case['panel']['values']
+  shares = vals.mean(axis=1) / vals.mean(axis=1).sum()
+  for j in range(5):
+    extra = {}
+    u = r.random()
+    if u < 0.45:
+      extra['n_geos_max'] = r.randrange(2, G + 1)
+    elif u < 0.8:
+      cut = sorted(shares)[r.randrange(0, G)]
+      hi = min(0.999, float(cut) * r.choice([0.999, 1.001]))
+      if hi > 1e-6:
+        extra['treatment_share_range'] = (1e-7, hi)
+    else:
+      imp = sorted(truth.admitted_model()[1]['impact'].values())
+      extra['budget_range'] = (0.0, float(imp[r.randrange(0, len(imp))]) * r.choice([0.999, 1.001]))
+    tr = None if r.random() < 0.5 else (1, r.randrange(1, G))
+    tol = r.choice(TOLS)
+    check_setting(case, truth, tr, None, tol, j % 2 == 0, counters, violations, fps, extra_kw=extra)
+  return {'nontrivial': False, 'nontrivial_fps': sorted(fps), 'fp': 'dropped-%d' % spec['idx'],
+          'classes': ['dropped-%d' % G], 'counters': dict(counters), 'violations': violations[:12],
+          'sample': {'kind': 'class vector with geo-level constraints', 'classes': classes},
+          'case': sl.describe(case) if violations else None}
+
+
 def run_search(spec, r, g):
   G = r.randrange(2, 6)
   case = sl.make_case(r, g, G, allow=('size', 'ratio', 'volume', 'share', 'budget'), elig_extra='none')
@@ -216,4 +263,6 @@ def run_case(spec):
     return run_enum(spec, r, g)
   if spec['kind'] == 'random':
     return run_random(spec, r, g)
+  if spec['kind'] == 'dropped':
+    return run_dropped(spec, r, g)
   return run_search(spec, r, g)
